@@ -305,7 +305,7 @@ func c17ConcOnce(f []string, seed int64) string {
 	go func() { done.Wait(); close(fin) }()
 	select {
 	case <-fin:
-	case <-time.After(5 * time.Second):
+	case <-time.After(10 * time.Second):
 		atomic.StoreInt32(&stop, 1)
 		c17Hangs++
 		return "hang"
@@ -358,7 +358,7 @@ func TestVerifC17(t *testing.T) {
 				fmt.Fprintln(w, "empty")
 				return
 			}
-			if c17Hangs >= 5 {
+			if c17Hangs >= 3 {
 				// every hang costs its full timeout and leaks goroutines: stop running cases
 				fmt.Fprintln(w, "hang-skipped")
 				return
@@ -378,7 +378,7 @@ func TestVerifC17(t *testing.T) {
 				select {
 				case o := <-ch:
 					fmt.Fprintln(w, o)
-				case <-time.After(1 * time.Second):
+				case <-time.After(3 * time.Second):
 					c17Hangs++
 					fmt.Fprintln(w, "hang")
 				}
